@@ -175,7 +175,18 @@ func applyHWrites(n *node, m *model, ws []LStep) {
 			n.sl.SetState(ad, []byte(k), nil, nil)
 			m.set(a, k, nil, true)
 		case "bal":
-			n.sl.SetBalance(ad, new(big.Int).SetUint64(w.N))
+			// two thirds of the balance writes are realised the way the EVM and the grant do it: as a credit or a debit
+			// relative to the balance the ledger reports (same write set, other entry point)
+			want := new(big.Int).SetUint64(w.N)
+			if cur := n.sl.GetBalance(ad); w.N%3 != 0 && cur != nil && cur.Cmp(want) != 0 {
+				if cur.Cmp(want) < 0 {
+					n.sl.GetOrCreateAccount(ad).AddBalance(new(big.Int).Sub(want, cur))
+				} else {
+					n.sl.GetOrCreateAccount(ad).SubBalance(new(big.Int).Sub(cur, want))
+				}
+			} else {
+				n.sl.SetBalance(ad, want)
+			}
 			m.setBal(a, new(big.Int).SetUint64(w.N))
 		case "nonce":
 			n.sl.SetNonce(ad, w.N)
